@@ -79,14 +79,17 @@ class MinimizeZeroStub(RootStub):
 class QuadRecorder:
     """scipy.integrate.quad recorder: returns (fresh symbol, 0) and records integrand/limits."""
 
-    def __init__(self, h, name='quad'):
+    def __init__(self, h, name='quad', concrete=None):
         self.h = h
         self.name = name
         self.calls = []
+        self.concrete = concrete      # return this float (+ call number) instead of a fresh symbol
 
     def __call__(self, f, a, b, *args, **kw):
         n = len(self.calls)
         self.calls.append(types.SimpleNamespace(f=f, a=a, b=b))
+        if self.concrete is not None:
+            return (self.concrete + n, 0.0)
         return (self.h.real(f'{self.name}{n}_value'), 0.0)
 
 
